@@ -162,7 +162,7 @@ def C08_c_committed_statement : Prop :=
     ∃ e' rest, (run R n g lx { ctx with sink := true } W).2.log = W.log ++ e' :: rest ∧ e'.body = e.body
 
 /-- a scanner that never produces a token, over the empty text -/
-def cexEnv : RunEnv := ⟨⟨fun s _ _ => (none, s), fun _ _ => true⟩, []⟩
+def cexEnv : RunEnv := ⟨⟨fun s _ _ => (none, s), fun _ _ => true, fun _ b => ⟨b, 0, b⟩⟩, []⟩
 def cexLx : Lx := Lexer.new 1 ⟨.lf, 4⟩ 0
 
 /-- Counterexample to (a) for `Spec.committed`: `probe 0` succeeds without a sink and reports
